@@ -1,7 +1,7 @@
 (* C10 - wedge, geometric product, meet.  Pinned theorems only. *)
 From Coq Require Import ZArith List Bool Reals Lra.
 From Flocq Require Import Core BinarySingleNaN.
-Require Import GV.FloatBase GV.FloatLemmas GV.AngleM GV.AngleProofs GV.GeonumM GV.GeonumProofs GV.TraitsM GV.NewProofs GV.CtorProofs GV.ClosureProofs GV.PiBounds GV.TrigProofs GV.DotValue GV.DistValue GV.DirProofs GV.SymProofs.
+Require Import GV.FloatBase GV.FloatLemmas GV.AngleM GV.AngleProofs GV.GeonumM GV.GeonumProofs GV.TraitsM GV.NewProofs GV.CtorProofs GV.ClosureProofs GV.PiBounds GV.TrigProofs GV.DotValue GV.DistValue GV.DirProofs GV.SymProofs GV.SwapProofs.
 Open Scope R_scope.
 
 Theorem C10_wedge : forall (L : libm) a b,
@@ -64,3 +64,12 @@ Theorem C10_swap_magnitude : forall (L : libm) (u : R) a b, sin_acc L u -> u <= 
     <= 2 * (Rabs (R_ (mag a) * R_ (mag b)) * (u + 10002 / 100000000000000) + bpow radix2 (-1073)).
 Proof. exact wedge_swap_mag. Qed.
 Print Assumptions C10_swap_magnitude.
+
+(* anti-symmetry: swapping the operands turns the wedge angle by exactly a half turn (two blades, remainder
+   untouched) whenever |sin(direction difference)| exceeds the value tolerance u + 1.0001e-10 *)
+Theorem C10_swap_orientation : forall (L : libm) (u : R) a b, sin_acc L u ->
+  canonp (rem (ang a)) -> canonp (rem (ang b)) -> (0 <= blade (ang a))%Z -> (0 <= blade (ang b))%Z ->
+  u + 10001 / 100000000000000 < Rabs (sin (dir (ang b) - dir (ang a))) ->
+  steps_to (ang (wedge L a b)) (ang (wedge L b a)) 2 \/ steps_to (ang (wedge L b a)) (ang (wedge L a b)) 2.
+Proof. exact wedge_swap_orientation. Qed.
+Print Assumptions C10_swap_orientation.
